@@ -28,10 +28,14 @@ def _parse_dump(out, ncases, shells):
     return res
 
 
-def _run_dump(exe, texts, stages, shells, timeout):
+def _run_dump(exe, texts, stages, shells, timeout, cpu=None):
+    """`cpu`: CPU-time limit in seconds (ulimit -t) -- used for the isolated re-runs, where a wall-clock limit would turn
+    a loaded machine into a 'crash'; the wall-clock timeout is then only a generous backstop."""
     data = b'\0'.join(texts)
-    p = subprocess.run([exe, '--stages', ','.join(stages), '--shells', ','.join(shells)],
-                       input=data, stdout=subprocess.PIPE, stderr=subprocess.PIPE, timeout=timeout)
+    cmd = [exe, '--stages', ','.join(stages), '--shells', ','.join(shells)]
+    if cpu is not None:
+        cmd = ['bash', '-c', 'ulimit -t %d; exec "$@"' % cpu, 'x'] + cmd
+    p = subprocess.run(cmd, input=data, stdout=subprocess.PIPE, stderr=subprocess.PIPE, timeout=timeout)
     return p.returncode, p.stdout.decode('latin-1')
 
 
@@ -70,7 +74,7 @@ def dump(exe, texts, stages, shells=('bash',), timeout=600, shard=None):
             d = {}
             for sh in shells:
                 try:
-                    rc1, out1 = _run_dump(exe, [t], stages, [sh], 60)
+                    rc1, out1 = _run_dump(exe, [t], stages, [sh], 1200, cpu=60)
                 except subprocess.TimeoutExpired:
                     rc1, out1 = -9, ''
                 got = _parse_dump(out1, 1, [sh]).get((0, sh), {})
